@@ -795,7 +795,8 @@ def parse_tree_to_objgraph(
         # Collect rules for textx-tools
         if inst is not None and metamodel.textx_tools_support:
             pos = (inst._tx_position, inst._tx_position_end)
-            pos_rule_dict[pos] = inst
+            # Nested objects are processed first. Keep the innermost.
+            pos_rule_dict.setdefault(pos, inst)
 
         return inst
 
